@@ -28,6 +28,7 @@ type absExt struct {
 	E  []string `json:"e"`
 	T  int      `json:"t"`
 	Ep []string `json:"ep"`
+	D  int      `json:"d"` // message levels the extend block is nested in
 }
 type absFile struct {
 	ID     string   `json:"id"`
@@ -82,14 +83,28 @@ func render(f *absFile) string {
 			fmt.Fprintf(&sb, "message %s { extensions 1 to 100; }\n", local)
 		case "enumval":
 			fmt.Fprintf(&sb, "enum E%s_%s { %s = 0; }\n", local, f.ID, local)
-		case "enum", "ext":
-			// produced by the enum value / the extension
+		case "enum", "ext", "nest":
+			// produced by the enum value / the extension (and the messages it is nested in)
 		default:
 			panic("unknown symbol kind " + s.K)
 		}
 	}
+	// extend blocks at file level first, then the ones inside nested messages N<i>_<id> { L2 { L3 { ... } } }
 	for i, x := range f.Exts {
-		fmt.Fprintf(&sb, "extend .%s { optional int32 x%d_%s = %d; }\n", dotted(x.E), i+1, f.ID, x.T)
+		if x.D == 0 {
+			fmt.Fprintf(&sb, "extend .%s { optional int32 x%d_%s = %d; }\n", dotted(x.E), i+1, f.ID, x.T)
+		}
+	}
+	for i, x := range f.Exts {
+		if x.D == 0 {
+			continue
+		}
+		names := []string{fmt.Sprintf("N%d_%s", i+1, f.ID), "L2", "L3"}[:x.D]
+		for _, n := range names {
+			fmt.Fprintf(&sb, "message %s { ", n)
+		}
+		fmt.Fprintf(&sb, "extend .%s { optional int32 x%d_%s = %d; }", dotted(x.E), i+1, f.ID, x.T)
+		sb.WriteString(strings.Repeat(" }", x.D) + "\n")
 	}
 	return sb.String()
 }
